@@ -126,6 +126,13 @@ let handle kind a =
        | Err InvalidInput -> Some "Err:InvalidInput"
        | Err InvalidData -> Some "Err:InvalidData"
        | Err UnexpectedEof -> Some "Err:UnexpectedEof")
+  | "lzv" ->
+      (match lazy_view (refs_of a.(0)) (bytes_of_hex a.(1)) with
+       | LOk (r, data) -> Some (dump_spec r ^ " " ^ hex_of_bytes data)
+       | LErr c -> Some ("Err:" ^ col_name (int_of_n c))
+       | LPanic c -> Some ("Panic:" ^ col_name (int_of_n c))
+       | LREof -> Some "Eof"
+       | LRBad -> Some "ReadErr")
   | "wr" ->
       let refs = refs_of a.(0) in
       let ft = table a.(1) and dt = table a.(2) in
